@@ -138,10 +138,10 @@ def selftest(lines, sc):
     """binding self-test: corrupt the new exit root of one recorded certificate; drop one L2 block event"""
     start = None
     for i, l in enumerate(lines):
-        if _RESET.search(l[:60]):
+        if _RESET.search(l[:300]):
             start = i
         if start is not None and '"submit"' in l[:40]:
-            end = next((j for j in range(i + 1, len(lines)) if _RESET.search(lines[j][:60])), len(lines))
+            end = next((j for j in range(i + 1, len(lines)) if _RESET.search(lines[j][:300])), len(lines))
             mut = [json.loads(x) for x in lines[start:end]]
             mut[i - start]["new"] = dict(t="unk", h=-1, ls=[])
             mf = sc.path("mut.ndjson")
